@@ -73,7 +73,7 @@ def parseTarget (s : String) : Option Target :=
 def parseBeh (s : String) : Option Beh :=
   if s == "ok" then some .ok else if s == "errBC" then some .errBC else if s == "shutBC" then some .shutBC
   else if s == "errAC" then some .errAC else if s == "shutAC" then some .shutAC else if s == "errMid" then some .errMid
-  else if s == "reject" then some .reject else none
+  else if s == "reject" then some .reject else if s == "okShut" then some .okShut else none
 
 def parseList {α} (sep : String) (f : String → Option α) (s : String) : Option (List α) :=
   if s == "-" then some [] else (s.splitOn sep).mapM f
